@@ -1,14 +1,22 @@
 """C16 - a random virtual ECU is fully determined by its seed and arguments.
 
+(P)  the Lean model of CPython's set for ints (Model/PySet.lean) against the real `set` of the running interpreter:
+     iteration order, len and table size after every operation - exhaustively for all short add/discard sequences over
+     small colliding universes and all binary operations on all pairs of small sets, sampled for random / adversarial /
+     randomize-shaped programs (harness/c16_pyset.py); the default `optional_services` (a list made from a set of IntEnum
+     members) is the list the model computes.
 (C1) the real `RandomUDSServer.randomize` runs with `RNG` replaced by a recording subclass; the Lean model
-     (Model/Randomize.lean) fed with the recorded draws / choices / set iteration orders must reproduce
-     `server.services` exactly and consume exactly the recorded number of draws; the recorded stream must be the
-     stream of `random.Random(str(seed))` (nothing but the seed went into the generator); a scripted RNG enumerates
-     every Boolean draw stream on small session universes.  The executable well-formedness predicate (Lean) is
-     evaluated on the implementation's model.
+     (Model/Randomize.lean) fed with the recorded draws and choices ALONE - the set iteration order is computed by the
+     PySet model - must reproduce `server.services` exactly, consume exactly the recorded number of draws and go through
+     the set orders seen in the running frame; the older oracle model fed with the recorded orders is kept as a
+     cross-check; the recorded stream must be the stream of `random.Random(str(seed))` (nothing but the seed went into
+     the generator); a scripted RNG enumerates every Boolean draw stream on small session universes.  The executable
+     well-formedness predicate (Lean) is evaluated on the implementation's model.  Servers are built directly and
+     through the real command line (parser -> RngVirtualECUConfig -> RngVirtualECU._server()); the arguments that reach
+     the server must be the ones the user wrote, in that order.
 (C2) transcripts (model dump + answers to a request history through `UDSServerTransport.handle_request`) of the same
-     seed / arguments from separate interpreter processes with different PYTHONHASHSEED, import orders and clock
-     bases must be byte-identical except security-access seed bytes.
+     seed / arguments - given as Python values and as command-line text - from separate interpreter processes with
+     different PYTHONHASHSEED, import orders and clock bases must be byte-identical except security-access seed bytes.
 """
 import json
 import os
@@ -21,6 +29,7 @@ from pathlib import Path
 from common import PY, REPO, setup_repo_import
 
 import c16_transcript as T
+import c16_pyset as PS
 
 ID = "C16"
 GENS = ["c16_tables"]
@@ -32,10 +41,17 @@ ASSUMPTIONS = [
     "session_transitions: IndexError / wrap-around; outside the model)",
     "reachability / return-to-default are stated for configurations whose mandatory services contain "
     "DiagnosticSessionControl (the default); without it the user has asked for sessions no request can enter",
-    "CPython: iteration order of a set of small ints is a function of the operations performed on it (ints hash to "
-    "themselves); the order used by `for session in level_sessions` is read from the running frame and fed to the model",
+    "Model/PySet.lean transcribes CPython 3.12 Objects/setobject.c (probe sequence, freeslot, resize / merge / difference "
+    "rules) for ints 0 <= n < 2^61-1, where hash(n) = n; the C source is not on this machine, so the transcription is "
+    "validated against the running interpreter on every run (part P) - another interpreter with another table strategy "
+    "shows up there as a broken tie; sets of other element types do not occur in randomize (the default optional_services "
+    "is a set of IntEnum members whose hash is checked to be the int hash on the live enum)",
+    "the two iterated sets of randomize (level_sessions, next_level_sessions) are modelled as PySets; "
+    "session_transitions[i] is only measured (len), extended and sorted, and is kept as a sorted list",
     "random.Random (Mersenne Twister) seeded with a str is a function of that str; floats compared with libm pow on both sides",
-    "a theorem cannot see another process's hash seed: cross-process determinism is carried by the transcript comparison",
+    "a theorem cannot see another process: that randomize has no input besides (arguments, draw stream, choice stream) is a "
+    "theorem about the model; that the code consults nothing else (request handlers, argument parsing, module state) is "
+    "carried by the draw replay and the cross-process transcript comparison over the listed environments",
 ]
 
 HARNESS = Path(__file__).resolve().parent.parent
@@ -132,14 +148,20 @@ class Impl:
         self.base_rng = S.RNG
         self.Rec = make_rng_classes(S, S.RNG)
 
-    def randomize(self, seed, params, script=None):
-        """-> dict(dump, services, floats, choices, orders, error)"""
+    def randomize(self, seed, params, script=None, argv=None):
+        """-> dict(dump, services, floats, choices, orders, error); with `argv` the server is built the way the command
+        line `gallia script vecu rng ...` builds it (real parser -> RngVirtualECUConfig -> RngVirtualECU._server())"""
         S = self.S
         rec = Recorder(script)
         out = {"error": None}
         try:
-            P = S.RandomUDSServer.RandomnessParameters(**params)
-            srv = S.RandomUDSServer(seed, P)
+            if argv is not None:
+                srv, _cfg = T.cli_build(argv)
+                P = srv.randomness_parameters
+                out["seed"] = srv.seed
+            else:
+                P = S.RandomUDSServer.RandomnessParameters(**params)
+                srv = S.RandomUDSServer(seed, P)
             S.RNG = self.Rec
             self.Rec.rec = rec
             try:
@@ -158,6 +180,7 @@ class Impl:
         out["ops"] = rec.ops
         n_levels = (max(rec.orders) + 1) if rec.orders else 0
         out["orders"] = [rec.orders.get(i, []) for i in range(n_levels)] or [[1]]
+        out["orders_seen"] = dict(rec.orders)
         return out
 
 
@@ -191,11 +214,20 @@ def model_lines(P_lists, probs, orders, choices, floats=None, bools=None, impl_d
     if floats is not None:
         lines.append("fdraws " + nats(int(v * 2 ** 53) for v in floats))
         lines.append("run float")
+        lines.append("runpy float")
     else:
         lines.append("bdraws " + ("".join("1" if b else "0" for b in bools) or "-"))
         lines.append("run bool")
+        lines.append("runpy bool")
     lines.append("wf " + (impl_dump if impl_dump else "-"))
     return lines
+
+
+RUN, RUNPY, WF = 6, 7, 8  # offsets of the answers inside one model_lines block
+
+
+def parse_orders(text):
+    return [[int(x) for x in o.split(",")] if o else [] for o in text.split(";")] if text else []
 
 
 def parse_run(line):
@@ -320,6 +352,75 @@ def mk_params(lists, probs, extra=None):
 
 
 # ------------------------------------------------------------------------------------------------------------
+# command lines of `gallia script vecu rng` (the list options as TEXT, as a user types them)
+# ------------------------------------------------------------------------------------------------------------
+CLI_HEAD = ["script", "vecu", "rng", "unix-lines:///tmp/vecu.sock", "--no-volatile-info"]
+BATS_SERVICES = ["DiagnosticSessionControl", "EcuReset", "ReadDataByIdentifier", "WriteDataByIdentifier", "RoutineControl",
+                 "SecurityAccess", "ReadMemoryByAddress", "WriteMemoryByAddress", "RequestDownload", "RequestUpload",
+                 "TesterPresent", "ReadDTCInformation", "ClearDiagnosticInformation", "InputOutputControlByIdentifier"]
+CLI_LIST_OPTS = {"--mandatory-sessions": "mandatory_sessions", "--optional-sessions": "optional_sessions",
+                 "--mandatory-services": "mandatory_services", "--optional-services": "optional_services"}
+
+
+def cli_fixed():
+    """tests/bats/run_bats.sh, explicit optional lists, defaults"""
+    return [
+        ("cli:bats", CLI_HEAD + ["--seed", "3", "--mandatory-sessions", "1", "2", "3", "--mandatory-services"] + BATS_SERVICES),
+        ("cli:explicit-optionals", CLI_HEAD + ["--seed", "7", "--mandatory-sessions", "1", "3", "--optional-sessions", "0x40", "0x41",
+                                               "2", "5", "0x60", "0x7e", "--optional-services", "ReadDataByIdentifier", "TesterPresent",
+                                               "EcuReset", "SecurityAccess", "RoutineControl", "CommunicationControl",
+                                               "--p-session", "0.5", "--p-service", "0.6", "--p-sub-function", "0.1",
+                                               "--p-identifier", "0.5", "--p-correct-payload-format", "0.8"]),
+        ("cli:defaults", CLI_HEAD + ["--seed", "11"]),
+        ("cli:seed-0", CLI_HEAD + ["--seed", "0", "--optional-sessions", "2", "3", "--p-session", "0.6"]),
+    ]
+
+
+def cli_random(rng):
+    from gallia.services.uds.core.constants import UDSIsoServices
+
+    names = [s.name for s in UDSIsoServices if s.name != "NegativeResponse"]
+    num = lambda x: rng.choice([str(x), hex(x), f"0x{x:02X}"])  # noqa: E731
+    argv = CLI_HEAD + ["--seed", str(rng.choice([rng.randrange(100), rng.randrange(2 ** 40), 0]))]
+    ms = [1] + rng.sample(range(2, 0x7F), rng.choice([1, 2, 4]))
+    rng.shuffle(ms)
+    argv += ["--mandatory-sessions"] + [num(x) for x in ms]
+    if rng.random() < 0.8:
+        os_ = rng.sample(range(2, 0x7F), rng.choice([2, 3, 6, 12]))
+        argv += ["--optional-sessions"] + [num(x) for x in os_]
+    msv = ["DiagnosticSessionControl"] + rng.sample([n for n in names if n != "DiagnosticSessionControl"], rng.choice([1, 3, 6]))
+    rng.shuffle(msv)
+    argv += ["--mandatory-services"] + msv
+    if rng.random() < 0.8:
+        argv += ["--optional-services"] + rng.sample(names, rng.choice([2, 4, 9]))
+    argv += ["--p-session", rng.choice(["0.05", "0.3", "0.8"]), "--p-service", rng.choice(["0.2", "0.6"]),
+             "--p-identifier", rng.choice(["0.005", "0.5"])]
+    return ("cli:random", argv)
+
+
+def cli_expected(argv):
+    """what the user wrote: seed and the four lists, in the order given"""
+    from gallia.services.uds.core.constants import UDSIsoServices
+
+    out = {}
+    i = 0
+    while i < len(argv):
+        a = argv[i]
+        if a == "--seed":
+            out["seed"] = int(argv[i + 1], 0)
+        if a in CLI_LIST_OPTS:
+            vals = []
+            j = i + 1
+            while j < len(argv) and not argv[j].startswith("--"):
+                v = argv[j]
+                vals.append(int(UDSIsoServices[v]) if v in UDSIsoServices.__members__ else int(v, 0))
+                j += 1
+            out[CLI_LIST_OPTS[a]] = vals
+        i += 1
+    return out
+
+
+# ------------------------------------------------------------------------------------------------------------
 # request histories for the transcript comparison
 # ------------------------------------------------------------------------------------------------------------
 def make_history(rng, services, max_sessions, per_session):
@@ -430,10 +531,17 @@ def run_children(configs, envs):
 
 # ------------------------------------------------------------------------------------------------------------
 def check_c1(ctx, impl, cases):
-    """cases: list of dict(label, seed, params, script|None). Returns impl results."""
+    """cases: list of dict(label, seed, params, script|None). Returns impl results (in slices: bounds memory)."""
+    results = []
+    for lo in range(0, len(cases), 400):
+        results += _check_c1(ctx, impl, cases[lo: lo + 400])
+    return results
+
+
+def _check_c1(ctx, impl, cases):
     batch, index, results = [], [], []
     for c in cases:
-        r = impl.randomize(c["seed"], c["params"], c.get("script"))
+        r = impl.randomize(c.get("seed"), c.get("params"), c.get("script"), c.get("argv"))
         results.append(r)
         if r["error"] is not None:
             index.append(None)
@@ -442,6 +550,17 @@ def check_c1(ctx, impl, cases):
         lists = ([int(x) for x in P.mandatory_sessions], [int(x) for x in P.optional_sessions],
                  [int(x) for x in P.mandatory_services], [int(x) for x in P.optional_services])
         probs = (P.p_session, P.p_service, P.p_sub_function)
+        if c.get("argv") is not None:
+            exp = cli_expected(c["argv"])
+            got = {"seed": r.get("seed"), "mandatory_sessions": lists[0], "optional_sessions": lists[1],
+                   "mandatory_services": lists[2], "optional_services": lists[3]}
+            for fld, v in exp.items():
+                if got[fld] != v:
+                    ctx.disagree("c1:cli-arguments-changed:" + fld,
+                                 f"the command line gives {fld} = {v} but RandomUDSServer receives {got[fld]}: the arguments of the "
+                                 "model are not the arguments the user wrote (order / repetitions changed on the way)",
+                                 {"kind": "c1", "argv": c["argv"], "seed": None, "params": None, "script": None},
+                                 impl=got[fld], model=v, spec_violated=False, site="RngVirtualECUConfig / cli parser")
         if c.get("script") is not None:
             bools = [v == 0.0 for v in r["floats"]]
             ml = model_lines(lists, probs, r["orders"], r["choices"], bools=bools, impl_dump=r["dump"])
@@ -453,19 +572,24 @@ def check_c1(ctx, impl, cases):
     for c, r, ix in zip(cases, results, index):
         ctx.ev()
         ctx.kind(c["label"])
-        case = {"kind": "c1", "seed": c["seed"], "params": c["params"], "script": c.get("script")}
+        case = {"kind": "c1", "seed": c.get("seed"), "params": c.get("params"), "script": c.get("script")}
+        if c.get("argv") is not None:
+            case["argv"] = c["argv"]
+            c["seed"] = r.get("seed", c.get("seed"))
         if ix is None:
             ctx.disagree("c1:randomize-raises:" + r["error"].split(":")[0],
                          "RandomUDSServer.randomize raises on well-formed arguments: " + r["error"], case,
                          impl=r["error"], model="a model", spec_violated=True, site="RandomUDSServer.randomize")
             continue
         off, lists = ix
-        run = parse_run(out[off + 6])
-        wf = dict(kv.split("=") for kv in out[off + 7].split())
+        run = parse_run(out[off + RUN])
+        runpy = parse_run(out[off + RUNPY])
+        wf = dict(kv.split("=") for kv in out[off + WF].split())
         dump = r["dump"]
         n_sess = dump.count(";") + 1 if dump != "-" else 0
         if n_sess >= 2 or dump.count(",") >= 1:
-            ctx.nontrivial((c["seed"], json.dumps(c["params"], sort_keys=True), json.dumps(c.get("script"))))
+            ctx.nontrivial((c.get("seed"), json.dumps(c.get("params"), sort_keys=True), json.dumps(c.get("script")),
+                            json.dumps(c.get("argv"))))
         ctx.kind(f"sessions:{'1' if n_sess == 1 else '2-4' if n_sess <= 4 else '5-20' if n_sess <= 20 else '21+'}",
                  f"choices:{min(len(r['choices']), 3)}{'+' if len(r['choices']) > 3 else ''}",
                  f"levels:{min(len(r['orders']), 4)}",
@@ -491,6 +615,26 @@ def check_c1(ctx, impl, cases):
                 ctx.disagree("c1:rng-stream-not-from-seed", f"draw {bad_at} of randomize is not the stream of Random(str(seed))",
                              case, impl={"op": list(r["ops"][bad_at])}, model="random.Random(str(seed))",
                              spec_violated=False, site="RNG / RandomUDSServer.randomize")
+        # the model as a function of (arguments, draws, choices) alone: CPython's set order is computed (Model/PySet.lean)
+        py_orders = parse_orders(runpy.get("orders", ""))
+        seen = r.get("orders_seen", {})
+        if runpy["dump"] != dump:
+            comp = diff_component(runpy["dump"], dump)
+            ctx.disagree("c1:pymodel-differs:" + comp,
+                         f"model fed with the recorded draws alone (set order computed) does not reproduce server.services ({comp})",
+                         case, impl=dump, model=runpy["dump"], spec_violated=False, site="RandomUDSServer.randomize")
+        elif int(runpy["draws"]) != len(r["floats"]) or int(runpy["choices"]) != len(r["choices"]):
+            ctx.disagree("c1:pymodel-draw-count", "number of draws / choices consumed differs (set order computed)",
+                         case, impl={"draws": len(r["floats"]), "choices": len(r["choices"])},
+                         model={"draws": runpy["draws"], "choices": runpy["choices"]}, spec_violated=False,
+                         site="RandomUDSServer.randomize")
+        elif any(lv >= len(py_orders) or py_orders[lv] != o for lv, o in seen.items()):
+            lv = min(lv for lv, o in seen.items() if lv >= len(py_orders) or py_orders[lv] != o)
+            ctx.disagree("c1:pymodel-level-order", f"iteration order of level_sessions at level {lv} differs from the PySet model",
+                         case, impl={"level": lv, "order": seen[lv]},
+                         model={"orders": py_orders}, spec_violated=False, site="RandomUDSServer.randomize")
+        if any(len(o) > 1 for o in py_orders):
+            ctx.kind("pyset-order:" + ("some-level-not-sorted" if any(o != sorted(o) for o in py_orders) else "sorted"))
         if run["dump"] != dump:
             comp = diff_component(run["dump"], dump)
             ctx.disagree("c1:model-differs:" + comp, f"model fed with the recorded draws does not reproduce server.services ({comp})",
@@ -504,6 +648,10 @@ def check_c1(ctx, impl, cases):
             ctx.disagree("c1:level-sets", "recorded iteration orders are not permutations of the model's level sets",
                          case, impl={"orders": r["orders"]}, model={"levels": run["levels"], "order": run["order"]},
                          spec_violated=False, site="RandomUDSServer.randomize")
+    for r in results:  # the recorded streams are not needed any more (memory: thousands of cases x up to 10^5 draws)
+        r["n_floats"] = len(r.get("floats", ()))
+        r.pop("ops", None)
+        r.pop("floats", None)
     return results
 
 
@@ -517,6 +665,9 @@ def scripted_cases(ctx):
         ([], [2, 1], [0x10], [0x22], 9),
         ([5], [1, 5, 6], [0x3E, 0x10], [0x10], 11),
         ([0, 126], [64], [0x10], [], 8),
+        # ids that collide in CPython's 8-entry set table: the second pass walks {9, 17, 2} / {8, 16, 24, 0} in table order
+        ([1], [9, 17, 2], [0x10], [], 12),
+        ([8], [16, 24, 0, 1], [0x10], [], 11),
     ]
     if not ctx.quick or ctx.widened:
         small += [([1, 2], [3, 4], [0x10], [], 13), ([7, 9, 8], [8], [0x10, 0x31], [0x19], 12)]
@@ -548,6 +699,19 @@ def seeded_cases(ctx, ALL):
         (list(range(N_SESS)), list(range(N_SESS)), ALL[:], ALL[:]), {"p_session": 3.0, "p_service": 0.5, "p_sub_function": 0.1})})
     cases.append({"label": "seeded:empty-lists", "seed": 6, "params": mk_params(([], [], [], []), {})})
     cases.append({"label": "seeded:empty-lists", "seed": 6, "params": mk_params(([], [], [0x10], []), {"p_session": 1.0})})
+    # session ids that collide in CPython's set tables (equal low bits), generous transition probabilities: level sets of
+    # many elements whose iteration order is neither sorted nor insertion order, several resizes
+    for _ in range(ctx.pick(250, 2500)):
+        low = rng.sample(range(8), rng.choice([1, 2, 3]))
+        fam = [x for x in range(N_SESS) if x % 8 in low or (x % 32 == 5 and rng.random() < 0.5)]
+        os_ = rng.sample(fam, min(len(fam), rng.choice([3, 5, 8, 14, 30])))
+        if rng.random() < 0.3:
+            os_ += rng.sample(range(N_SESS), rng.choice([1, 3, 10]))
+        ms = rng.choice([[1], [], rng.sample(fam, min(len(fam), 3)), [1] + rng.sample(range(N_SESS), 2)])
+        probs = {"p_session": rng.choice([0.2, 0.4, 0.7, 1.0, 1.5, 4.0]), "p_service": rng.choice([0.0, 0.2]),
+                 "p_sub_function": rng.choice([0.0, 0.05])}
+        cases.append({"label": "seeded:colliding-sessions", "seed": rng.randrange(2 ** 31),
+                      "params": mk_params((ms, os_, [0x10], [0x3E, 0x22]), probs)})
     for _ in range(ctx.pick(400, 4000)):
         lists = gen_lists(rng, ALL)
         probs = gen_probs(rng)
@@ -556,7 +720,7 @@ def seeded_cases(ctx, ALL):
     return cases
 
 
-def check_c2(ctx, impl, c1_cases, c1_results):
+def check_c2(ctx, impl, c1_cases, c1_results, cli_cases=()):
     rng = ctx.rng
     ALL = all_services()
     # configurations: defaults for a few seeds, dense models, models from random arguments
@@ -569,21 +733,35 @@ def check_c2(ctx, impl, c1_cases, c1_results):
                                         "optional_sessions": [2, 3, 0x41, 0x42]}})
     picked = [c for c, r in zip(c1_cases, c1_results)
               if c.get("script") is None and r["error"] is None and c["label"] == "seeded:random-arguments"
-              and len(r["floats"]) < 20000]
+              and r["n_floats"] < 20000]
     rng.shuffle(picked)
     for c in picked[: ctx.pick(14, 60)]:
         cfgs.append({"seed": c["seed"], "params": {**c["params"], "p_identifier": rng.choice([0.005, 0.5, 1.0]),
                                                    "p_correct_payload_format": rng.choice([0.1, 0.9])}})
+    # models whose level sets were walked in an order that is neither sorted nor insertion order (colliding session ids):
+    # where a dependence of the set layout on anything but the ints themselves would show between processes
+    coll = [c for c, r in zip(c1_cases, c1_results)
+            if c["label"] == "seeded:colliding-sessions" and r["error"] is None and r["n_floats"] < 20000
+            and any(o != sorted(o) for o in r["orders"])]
+    rng.shuffle(coll)
+    for c in coll[: ctx.pick(10, 40)]:
+        cfgs.append({"seed": c["seed"], "params": dict(c["params"])})
+    # the same through the command line: real parser -> RngVirtualECUConfig -> RngVirtualECU._server()
+    for _lab, argv in [x for x in cli_cases]:
+        cfgs.append({"argv": argv})
     # histories from the in-process model
     S = impl.S
     for cfg in cfgs:
-        r = impl.randomize(cfg["seed"], cfg["params"])
+        r = impl.randomize(cfg.get("seed"), cfg.get("params"), None, cfg.get("argv"))
         cfg["history"] = make_history(rng, r.get("services", {}), ctx.pick(4, 8), ctx.pick(24, 60)) if r["error"] is None else ["3e00"]
     envs = ENVS[: ctx.pick(4, 8)]
     outs = run_children(cfgs, envs)
     # this process is one more environment
     here = {"defaults": T.defaults_fingerprint(S), "runs": []}
     for cfg in cfgs:
+        if "argv" in cfg:  # command lines are compared between the child processes only (their hash seeds are fixed)
+            here["runs"].append(None)
+            continue
         try:
             here["runs"].append(T.transcript(S, cfg, clock_base=5.0e8))
         except Exception as e:  # noqa: BLE001
@@ -594,9 +772,11 @@ def check_c2(ctx, impl, c1_cases, c1_results):
     ref = outs_all[0]
     n_req = sum(len(c["history"]) for c in cfgs)
     ctx.notes["c2"] = {"configurations": len(cfgs), "requests_per_environment": n_req, "environments": len(envs_all),
-                       "positive_answers_in_reference": sum(1 for r in ref["runs"] for a in r.get("answers", [])
+                       "command_lines": sum(1 for c in cfgs if "argv" in c),
+                       "positive_answers_in_reference": sum(1 for r in ref["runs"] if r for a in r.get("answers", [])
                                                             if a not in ("none",) and not a.startswith("7f") and not a.startswith("EXC")),
-                       "exceptions_in_reference": sum(1 for r in ref["runs"] for a in r.get("answers", []) if a.startswith("EXC"))}
+                       "exceptions_in_reference": sum(1 for r in ref["runs"] if r for a in r.get("answers", []) if a.startswith("EXC"))}
+    first_child = next((o for o in outs if "error" not in o), None)
     for env, o in zip(envs_all[1:], outs_all[1:]):
         envd = {"PYTHONHASHSEED": env[0], "import_order": env[1], "clock_base": env[2]}
         if "error" in o:
@@ -611,10 +791,30 @@ def check_c2(ctx, impl, c1_cases, c1_results):
                          f"default RandomnessParameters.{fld} differs between processes (argument defaults are part of 'the same arguments')",
                          {"kind": "c2", "env": envd, "configs": []}, impl=o["defaults"][fld], model=ref["defaults"][fld],
                          spec_violated=True, site="RandomUDSServer.RandomnessParameters")
-        for cfg, a, b in zip(cfgs, ref["runs"], o["runs"]):
+        for k, (cfg, a, b) in enumerate(zip(cfgs, ref["runs"], o["runs"])):
+            if "argv" in cfg:
+                if first_child is None or o is first_child:
+                    continue
+                a = first_child["runs"][k]
+                ctx.kind("xproc:command-line")
             ctx.traces_validated += 1
             if a == b:
                 continue
+            if "argv" in cfg and "error" not in a and "error" not in b and a.get("params") != b.get("params"):
+                fld = next(f for f in a["params"] if a["params"][f] != b["params"].get(f))
+                visible = a.get("model") != b.get("model") or a.get("answers") != b.get("answers")
+                comp = diff_component(a.get("model", "-"), b.get("model", "-"))
+                ctx.disagree("c2:cli-arguments-differ:" + fld,
+                             f"the same command line hands a different {fld} to RandomUDSServer in another process "
+                             f"(PYTHONHASHSEED {envs[0][0]} vs {env[0]})"
+                             + (f"; the models differ ({comp})" if comp != "same" else
+                                ("; the answers differ" if visible else "; model and answers happen to coincide")),
+                             {"kind": "c2", "env": envd, "configs": [{**cfg, "history": [] if comp != "same" else cfg["history"]}]},
+                             impl={fld: b["params"][fld], "model": b.get("model", "")[:400]},
+                             model={fld: a["params"][fld], "model": a.get("model", "")[:400]}, spec_violated=visible,
+                             site="RngVirtualECUConfig / cli parser")
+                if visible:
+                    continue
             if a.get("model") != b.get("model") or "error" in a or "error" in b:
                 comp = diff_component(a.get("model", "-"), b.get("model", "-")) if "error" not in a and "error" not in b else "error"
                 ctx.disagree("c2:model-differs:" + comp, "same seed and arguments give a different model in another process",
@@ -632,17 +832,212 @@ def check_c2(ctx, impl, c1_cases, c1_results):
                 "answers_head": ref["runs"][0].get("answers", [])[:12]})
 
 
-def run(ctx):
+# ------------------------------------------------------------------------------------------------------------
+# (P) the Lean model of CPython's set against the real set
+# ------------------------------------------------------------------------------------------------------------
+def pyset_first_mismatch(ctx, programs):
+    """-> per program: None | (index of the first op whose observation differs, impl, model)"""
+    batch, spans = [], []
+    for ops in programs:
+        spans.append((len(batch) + 1, len(ops)))
+        batch.append("reset")
+        batch += [PS.lean_line(op) for op in ops]
+    out = ctx.lean(batch)
+    res = []
+    for ops, (off, n) in zip(programs, spans):
+        exp = PS.run_program(ops)
+        hit = None
+        for i in range(n):
+            got = PS.strip_fill(out[off + i])
+            if got != exp[i]:
+                hit = (i, exp[i], got)
+                break
+        res.append(hit)
+    return res
+
+
+def pyset_shrink(ctx, ops):
+    """greedy: cut after the first mismatch, then drop single ops while a mismatch remains (two passes, fixed order)"""
+    hit = pyset_first_mismatch(ctx, [ops])[0]
+    if hit is None:
+        return ops, None
+    ops = ops[: hit[0] + 1]
+    for _ in range(2):
+        cands = [ops[:i] + ops[i + 1:] for i in range(len(ops) - 1)]
+        if not cands:
+            break
+        hits = pyset_first_mismatch(ctx, cands)
+        better = [(c[: h[0] + 1], h) for c, h in zip(cands, hits) if h is not None]
+        if not better:
+            break
+        ops, hit = min(better, key=lambda ch: (len(ch[0]), json.dumps(ch[0])))
+    # shrink list arguments
+    for _ in range(2):
+        cands = []
+        for i, op in enumerate(ops):
+            if op[0] in ("from", "update") and len(op[2]) > 1:
+                for j in range(len(op[2])):
+                    o2 = list(op)
+                    o2[2] = op[2][:j] + op[2][j + 1:]
+                    cands.append(ops[:i] + [o2] + ops[i + 1:])
+        cands = cands[:400]
+        if not cands:
+            break
+        hits = pyset_first_mismatch(ctx, cands)
+        better = [(c[: h[0] + 1], h) for c, h in zip(cands, hits) if h is not None]
+        if not better:
+            break
+        ops, hit = min(better, key=lambda ch: (sum(len(o[2]) for o in ch[0] if o[0] in ("from", "update")), json.dumps(ch[0])))
+    return ops, hit
+
+
+def pyset_report(ctx, ops, label):
+    ops, hit = pyset_shrink(ctx, ops)
+    if hit is None:
+        return
+    i, impl, model = hit
+    ctx.disagree("pyset:model-differs:" + ops[i][0],
+                 f"Lean model of CPython's set differs from the real set after op {i} ({ops[i][0]}) [{label}]: iteration order, "
+                 "len or table size", {"kind": "pyset", "ops": ops}, impl=impl, model=model, spec_violated=False,
+                 site="CPython Objects/setobject.c vs lean/Gallia/Model/PySet.lean")
+
+
+def check_pyset(ctx):
+    rng = ctx.rng
+    # --- exhaustive: every add/discard sequence over small colliding universes, compared after every op -------------
+    walks = [
+        ("mask7", [], [0, 8, 16, 24, 32, 1], ctx.pick(5, 6), ("add", "discard")),       # all collide in the small table; 5th insert resizes
+        ("mask31", [0, 1, 2, 3, 4], [32, 64, 96, 22, 23, 54, 5], ctx.pick(4, 5), ("add", "discard")),  # linear-probe window and its edge (i=22/23)
+        ("grow", [], [0, 8, 1, 9, 2, 10, 3, 11], ctx.pick(6, 7), ("add",)),                   # insertion orders through the first resize
+    ]
+    n_nodes = 0
+    for name, init, univ, depth, kinds in walks:
+        found = False
+        for first in [(k, x) for k in kinds for x in univ]:  # one slice of the walk per first op (bounds memory)
+            lines, expected, paths = PS.exhaustive_walk(init, univ, depth, kinds, first)
+            out = ctx.lean(["reset"] + lines)[1:]
+            n_nodes += len(lines) - 1
+            ctx.ev(len(lines) - 1)
+            ctx.dist["pyset:exhaustive:" + name] += len(lines) - 1
+            for k, (o, e) in enumerate(zip(out, expected)):
+                if PS.strip_fill(o) != e:
+                    pyset_report(ctx, PS.program_of(init, paths, k), "exhaustive:" + name)
+                    found = True
+                    break
+            if found:
+                break
+    # --- exhaustive: binary operations on every ordered pair of sets built from lists of length <= 3 ------------------
+    import itertools
+
+    u2 = [0, 8, 16, 1, 9] + ([24] if not ctx.quick or ctx.widened else [])
+    lists = [list(t) for n in range(4) for t in itertools.product(u2, repeat=n)]
+    progs = []
+    for A in lists:
+        for B in lists:
+            progs.append([["from", 0, A, 0], ["from", 1, B, 0], ["sub", 2, 0, 1], ["or", 3, 0, 1], ["isub", 0, 1],
+                          ["from", 0, A, 0], ["ior", 0, 1], ["copy", 4, 0, 0]])
+    for lo in range(0, len(progs), 4000):
+        chunk = progs[lo: lo + 4000]
+        for ops, hit in zip(chunk, pyset_first_mismatch(ctx, chunk)):
+            if hit is not None:
+                pyset_report(ctx, ops, "exhaustive:pairs")
+                break
+    n_pairs = len(progs)
+    ctx.ev(n_pairs)
+    ctx.dist["pyset:exhaustive:pairs"] += n_pairs
+    ctx.exhaustive_parts.append(
+        f"PySet vs CPython set: every add/discard sequence of length <= {walks[0][3]} over {walks[0][2]} from set(), of length <= "
+        f"{walks[1][3]} over {walks[1][2]} from set(range(5)), every add sequence of length <= {walks[2][3]} over {walks[2][2]} "
+        f"({n_nodes} states, list / len / table size compared after every op); a - b, a | b, a -= b, a |= b, copy for every ordered "
+        f"pair of sets built from the lists of length <= 3 over {u2} ({n_pairs} pairs)")
+    # --- random and adversarial programs ---------------------------------------------------------------------------------
+    progs, labels = [], []
+    names = list(PS.UNIVERSES)
+    for k in range(ctx.pick(240, 4000)):
+        u = names[k % len(names)]
+        progs.append(PS.random_program(rng, ctx.pick(150, 300), u))
+        labels.append("pyset:random:" + u)
+    for _ in range(ctx.pick(600, 6000)):
+        progs.append(PS.randomize_shaped_program(rng))
+        labels.append("pyset:randomize-shaped")
+    n_ops = 0
+    for lo in range(0, len(progs), 500):
+        chunk = progs[lo: lo + 500]
+        for ops, lab, hit in zip(chunk, labels[lo: lo + 500], pyset_first_mismatch(ctx, chunk)):
+            ctx.ev()
+            ctx.kind(lab)
+            n_ops += len(ops)
+            ctx.nontrivial(("pyset", json.dumps(ops)))
+            if hit is not None:
+                pyset_report(ctx, ops, lab)
+    ctx.traces_validated += len(progs)
+    ctx.notes["pyset"] = {"exhaustive_states": n_nodes, "exhaustive_pairs": n_pairs, "random_programs": len(progs),
+                          "random_ops": n_ops, "interpreter": sys.version.split()[0]}
+
+
+def check_default_optional_services(ctx, impl):
+    """`RandomnessParameters.optional_services` defaults to list(set(UDSIsoServices) - set(mandatory + [NegativeResponse])):
+    a set of IntEnum members (hash = int value) - its order must be the PySet model's"""
+    from gallia.services.uds.core.constants import UDSIsoServices
+
+    P = impl.S.RandomUDSServer.RandomnessParameters()
+    allsv = [int(x) for x in UDSIsoServices]
+    mand = [int(x) for x in P.mandatory_services]
+    neg = int(UDSIsoServices.NegativeResponse)
+    out = ctx.lean(["reset", f"defopt {nats(allsv)} {nats(mand)} {neg}"])[1]
+    real = [int(x) for x in P.optional_services]
+    ctx.ev()
+    ctx.kind("pyset:default-optional-services")
+    hashes_ok = all(hash(x) == int(x) for x in UDSIsoServices)
+    if not hashes_ok:
+        ctx.disagree("c2:enum-hash-not-int", "UDSIsoServices members do not hash like their int value: the order of the default "
+                     "optional_services (a list made from a set) may depend on PYTHONHASHSEED",
+                     {"kind": "c2", "env": {"PYTHONHASHSEED": "1", "import_order": 0, "clock_base": 0.0}, "configs": []},
+                     impl=[hash(x) for x in UDSIsoServices][:8], model="hash(member) == int(member)", spec_violated=False,
+                     site="RandomUDSServer.RandomnessParameters")
+    if out != nats(real):
+        ctx.disagree("pyset:default-optional-services", "order of the default RandomnessParameters.optional_services differs from "
+                     "list(set(UDSIsoServices) - set(mandatory_services + [NegativeResponse])) as computed by the PySet model",
+                     {"kind": "pyset", "ops": [["from", 0, allsv, 0], ["from", 1, mand + [neg], 0], ["sub", 2, 0, 1]]},
+                     impl=real, model=out, spec_violated=False, site="RandomUDSServer.RandomnessParameters")
+
+
+def replay_pyset(ctx, c):
+    ops = c["ops"]
+    exp = PS.run_program(ops)
+    out = ctx.lean(["reset"] + [PS.lean_line(op) for op in ops])[1:]
+    bad = False
+    for op, e, o in zip(ops, exp, out):
+        same = PS.strip_fill(o) == e
+        bad |= not same
+        print(("   " if same else "!! "), json.dumps(op))
+        print("      CPython:", e)
+        print("      model  :", o)
+    return bad
+
+
+def search(ctx):
+    """failing-input search: the widened run without the PySet-vs-CPython part (a difference there is a broken tie, never a
+    failing input of the property)"""
+    run(ctx, with_pyset=False)
+
+
+def run(ctx, with_pyset=True):
     impl = Impl()
     ALL = all_services()
     ctx.rule = ("C1: one case = (seed, RandomnessParameters) or (scripted draw stream, arguments); counted as non-trivial when "
                 "the resulting model has >= 2 sessions or >= 2 services. C2: one evaluation = one (configuration, environment) transcript")
+    if with_pyset:
+        check_pyset(ctx)
+    check_default_optional_services(ctx, impl)
+    cli_cases = cli_fixed() + [cli_random(ctx.rng) for _ in range(ctx.pick(6, 40))]
     cases = scripted_cases(ctx) + seeded_cases(ctx, ALL)  # small universes first: first disagreement per key is small
+    cases += [{"label": lab, "argv": argv} for lab, argv in cli_cases]
     results = check_c1(ctx, impl, cases)
-    ok = [(c, r) for c, r in zip(cases, results) if r["error"] is None and c.get("script") is None]
+    ok = [(c, r) for c, r in zip(cases, results) if r["error"] is None and c.get("script") is None and c.get("argv") is None]
     if ok:
         c, r = ok[0]
-        ctx.sample({"seed": c["seed"], "params": c["params"], "draws": len(r["floats"]), "orders": r["orders"], "model": r["dump"][:300]})
+        ctx.sample({"seed": c["seed"], "params": c["params"], "draws": r["n_floats"], "orders": r["orders"], "model": r["dump"][:300]})
     # same process, second instance: identical model (cheap sanity before the cross-process comparison)
     for c, r in ok[: ctx.pick(40, 300)]:
         r2 = impl.randomize(c["seed"], c["params"])
@@ -651,11 +1046,13 @@ def run(ctx):
             ctx.disagree("c2:model-differs:in-process", "two servers with the same seed and arguments differ within one process",
                          {"kind": "c1", "seed": c["seed"], "params": c["params"], "script": None}, impl=r2.get("dump"), model=r["dump"],
                          spec_violated=True, site="RandomUDSServer.randomize")
-    check_c2(ctx, impl, cases, results)
+    check_c2(ctx, impl, cases, results, cli_cases)
 
 
 def replay(ctx, case):
     c = case.get("case", case)
+    if c.get("kind") == "pyset":
+        return replay_pyset(ctx, c)
     impl = Impl()
     if c.get("kind") == "c2":
         cfgs = c.get("configs", [])
@@ -664,7 +1061,7 @@ def replay(ctx, case):
         here = [T.transcript(impl.S, cfg, clock_base=5.0e8) for cfg in cfgs]
         print(json.dumps({"this_process": here, "recorded_env": outs[0], "hashseed0": outs[1]}, indent=1))
         return any(o.get("runs") != here for o in outs)
-    r = impl.randomize(c["seed"], c["params"], c.get("script"))
+    r = impl.randomize(c.get("seed"), c.get("params"), c.get("script"), c.get("argv"))
     if r["error"]:
         print("implementation raises:", r["error"])
         return True
@@ -677,28 +1074,42 @@ def replay(ctx, case):
     else:
         ml = model_lines(lists, probs, r["orders"], r["choices"], floats=r["floats"], impl_dump=r["dump"])
     out = ctx.lean(ml)
-    print("implementation:", r["dump"])
-    print("model         :", out[6])
-    print("wf(impl model):", out[7])
-    return parse_run(out[6])["dump"] != r["dump"] or "=0" in out[7]
+    print("implementation      :", r["dump"])
+    print("model (order given) :", out[RUN])
+    print("model (draws alone) :", out[RUNPY])
+    print("recorded set orders :", r.get("orders_seen"))
+    print("wf(impl model)      :", out[WF])
+    return (parse_run(out[RUN])["dump"] != r["dump"] or parse_run(out[RUNPY])["dump"] != r["dump"] or "=0" in out[WF])
 
 
 MANIFEST = {
-    "level_text": ("Lean 4 theorems over a model of RandomUDSServer.randomize in which every rng.random() < p is the next "
-                   "element of an arbitrary draw stream, rng.choice an arbitrary index oracle and the set iteration order an "
-                   "arbitrary oracle: for all streams (i.e. all seeds) mandatory sessions and services are present, the default "
-                   "session is present, every offered session is reachable from the default session through "
-                   "DiagnosticSessionControl sub-functions and returns to it in one step, every DSC sub-function is an offered "
-                   "session, the level loop terminates. Determinism proper is tied to the code by (C1) replaying the draws recorded "
-                   "from the real randomize (recording RNG subclass) through the model - exact reproduction of server.services, "
-                   "draw and choice counts, provenance of the stream from str(seed) alone, plus a scripted RNG enumerating every "
-                   "Boolean draw stream on small universes - and (C2) byte-identical transcripts (model + answers to request "
-                   "histories via UDSServerTransport.handle_request) from separate interpreter processes with different "
-                   "PYTHONHASHSEED, import orders and clock bases, security-access seeds masked."),
+    "level_text": ("Lean 4 theorems over (1) an executable model of CPython 3.12's set for ints (open addressing, linear probes, "
+                   "perturbation, freeslot reuse, fill/used counters, resize, merge, difference; Model/PySet.lean): the recurrence "
+                   "i -> 5i+1 mod 2^k visits every residue, hence the probe loops terminate on any table with an unused entry; the "
+                   "table invariant (power-of-two size, exact counters, load factor < 3/5, every key where its lookup stops) holds "
+                   "after any sequence of add / discard / update / set(iterable) / copy / | / |= / - / -= / resize; iteration yields "
+                   "every element exactly once; each operation has the membership law of its mathematical counterpart; and (2) a "
+                   "model of RandomUDSServer.randomize that is a function of the arguments, the draw stream and the choice stream "
+                   "alone (the iteration order of the code's sets is computed by (1)): it is an instance of the oracle model, so for "
+                   "all streams (i.e. all seeds) mandatory sessions and services are present, the default session is present, every "
+                   "offered session is reachable from the default session through DiagnosticSessionControl sub-functions and returns "
+                   "to it in one step, every DSC sub-function is an offered session; it reads only the prefix of the streams it "
+                   "reports as consumed (streams agreeing on that prefix give the same model). Tied to the code by (P) a differential "
+                   "test of the set model against the interpreter's set, exhaustive on small universes; (C1) replaying the draws "
+                   "recorded from the real randomize through the model with NO recorded set order - exact reproduction of "
+                   "server.services, draw / choice counts and the set orders seen in the frame, provenance of the stream from "
+                   "str(seed) alone, a scripted RNG enumerating every Boolean draw stream on small universes, servers built directly "
+                   "and through the real command line; (C2) byte-identical transcripts (model + answers to request histories via "
+                   "UDSServerTransport.handle_request) from separate interpreter processes with different PYTHONHASHSEED, import "
+                   "orders and clock bases, arguments given as values and as command-line text, security-access seeds masked."),
     "level_note": ("Trusted: Lean kernel (axioms propext, Quot.sound, Classical.choice), the generated tables, the harness, CPython's "
-                   "random.Random and int-set iteration (recorded, not modelled), libm pow. Partial: a theorem cannot see another "
-                   "process's hash seed - that half is a differential check over the listed environments; reachability assumes "
-                   "DiagnosticSessionControl among the mandatory services and session ids below 0x7F."),
-    "technique": "Lean 4 proof (invariants over folds, well-founded level loop) + recorded-draw replay and cross-process transcript comparison",
+                   "random.Random, libm pow; the set model is a transcription validated against the running interpreter, not derived "
+                   "from the C source. Partial: a theorem cannot see another process - that the code consults nothing but seed and "
+                   "arguments outside randomize (request handlers, argument parsing) is a differential check over the listed "
+                   "environments; reachability assumes DiagnosticSessionControl among the mandatory services and session ids below "
+                   "0x7F; set elements below 2^61-1."),
+    "technique": ("Lean 4 proof (full-period lemma, probe-loop invariants, simulation of the set-order-free model by the oracle model, "
+                  "invariants over folds, well-founded level loop) + differential test of the set model + recorded-draw replay "
+                  "without recorded order + cross-process transcript comparison incl. the command-line path"),
     "design_ref": "DESIGN.md section 7, C16",
 }
